@@ -165,17 +165,17 @@ pub fn c18_repeated_body<S: Src>(s: &mut S) {
     finish2(&r, st, x, true);
 }
 
-/// @harness props=C18:Q,C20:T n=3 err=Cheap
-/// @shape ob(ob(t0 any).rewind() then ob(t1.not()) then ob(ob(any).and_is(none_of t2))) then ob(any)*
+/// @harness props=C18:Q,C05:Q,C20:T n=3 err=Cheap
+/// @shape ob(ob(t0 any).rewind() then ob((t1 any).not()) then ob(ob(any any?).and_is(none_of t2))) then ob(any)*
 /// @symbolic t0..t2: u8
-/// @aims rewind / not / and_is reposition the input: the inspector must be repositioned with it
+/// @aims rewind / not / and_is reposition the input (and_is: back to the start for B, then FORWARD to where A ended when B is shorter): the inspector must be repositioned with it
 pub fn c18_lookahead_body<S: Src>(s: &mut S) {
     let t = [s.u8(), s.u8(), s.u8()];
     let inp = Inp::<3>::any(s);
     let x = inp.get();
     let la = ob(ob(j(t[0]).then(a()), x, 0).rewind(), x, 0);
     let neg = ob(j(t[1]).then(a()).not(), x, 0);
-    let conj = ob(ob(a(), x, 0).and_is(none_of::<[u8; 1], I, X>([t[2]]).then(a())), x, 0);
+    let conj = ob(ob(a().then(a().or_not()), x, 0).and_is(none_of::<[u8; 1], I, X>([t[2]])), x, 0);
     let p = pair(pair(pair(la.or_not().map(|o: Option<Ob>| o.unwrap_or(Ob::OK)).then(neg)).then(conj)).then(rest(x)));
     let mut st = Cnt::default();
     let r = p.parse_with_state(x, &mut st);
@@ -214,6 +214,66 @@ pub fn c18_recover_body<S: Src>(s: &mut S) {
     }
     cover!("cover:recovered", r.has_output() && r.has_errors());
     cover!("cover:accept", r.has_output() && !r.has_errors());
+    cover!("cover:reject", !r.has_output());
+}
+
+/// counting inspector for `&str` inputs (tokens are characters)
+#[derive(Copy, Clone, PartialEq, Eq, Debug, Default)]
+pub struct CntS {
+    pub n: usize,
+    pub h: u32,
+}
+impl<'src> Inspector<'src, &'src str> for CntS {
+    type Checkpoint = CntS;
+    #[inline(always)]
+    fn on_token(&mut self, t: &char) {
+        self.n += 1;
+        self.h = self.h.rotate_left(5) ^ (*t as u32) ^ 0x9e37;
+    }
+    #[inline(always)]
+    fn on_save<'parse>(&self, _: &Cursor<'src, 'parse, &'src str>) -> CntS {
+        *self
+    }
+    #[inline(always)]
+    fn on_rewind<'parse>(&mut self, m: &Checkpoint<'src, 'parse, &'src str, CntS>) {
+        *self = *m.inspector();
+    }
+}
+
+/// @harness props=C18:Q,C20:T n=3 err=Cheap timeout=900 input=&str_of_up_to_3_chars_from_{CR,LF,a,NEL}
+/// @shape text::newline() observed in map_with, then any* observed, on &str with a character-counting inspector
+/// @symbolic each character: index 0..=3; number of characters 0..=3
+/// @aims every token a text parser steps over (peek + skip in the CR / CRLF path of newline) is fed to on_token: the state after newline counts exactly the characters of the terminator
+pub fn c18_newline_str_body<S: Src>(s: &mut S) {
+    const AL: [char; 4] = ['\r', '\n', 'a', '\u{85}'];
+    let mut buf = [0u8; 8];
+    let mut len = 0usize;
+    let mut cs = ['a'; 3];
+    let n = s.upto(3) as usize;
+    let mut i = 0;
+    while i < 3 {
+        let k = s.upto(3) as usize;
+        if i < n {
+            cs[i] = AL[k];
+            len += AL[k].encode_utf8(&mut buf[len..]).len();
+        }
+        i += 1;
+    }
+    let x = unsafe { core::str::from_utf8_unchecked(&buf[..len]) };
+    type XS<'a> = extra::Full<Cheap, CntS, ()>;
+    let nl = text::newline::<&str, XS>().map_with(|(), e| e.state().n);
+    let tail = any::<&str, XS>().repeated().count().map_with(|k: usize, e| (k, e.state().n));
+    let mut st = CntS::default();
+    let r = nl.then(tail).parse_with_state(x, &mut st);
+    contract(&r);
+    if let Some((after_nl, (k, after_all))) = r.output() {
+        let want = if cs[0] == '\r' && n >= 2 && cs[1] == '\n' { 2 } else { 1 };
+        check!("C18:closure-state-equals-fold-of-consumed-prefix", *after_nl == want);
+        check!("C18:closure-state-equals-fold-of-consumed-prefix", *after_all == n && *k + want == n);
+        check!("C18:final-state-equals-fold-of-whole-input", st.n == n);
+    }
+    cover!("cover:crlf", r.has_output() && n >= 2 && cs[0] == '\r' && cs[1] == '\n');
+    cover!("cover:lone-cr", r.has_output() && n >= 2 && cs[0] == '\r' && cs[1] != '\n');
     cover!("cover:reject", !r.has_output());
 }
 
@@ -311,6 +371,7 @@ pub fn c18_with_state_body<S: Src>(s: &mut S) {
 }
 
 crate::harnesses! {
+    c18_newline_str [8] = c18_newline_str_body;
     c18_choice [6] = c18_choice_body;
     c18_repeated [7] = c18_repeated_body;
     c18_lookahead [6] = c18_lookahead_body;
